@@ -1,4 +1,5 @@
 """C04 — correspondence of QV.Model.Unitaries with qucumber/utils/unitaries.py and dense-Kronecker oracles."""
+import copy
 import itertools
 
 import numpy as np
@@ -66,6 +67,7 @@ REQUIRED_THEOREMS = ["C04_unitaries_of", "C04_create_dict", "C04_rotate_psi_dict
                      "C04_rotate_rho_loop", "C04_dense_eq_kronecker", "C04_fastK_eq_dense", "C04_expand_enumerates", "C04_rotate_basis_state",
                      "C04_inner_prod_enum", "C04_inner_prod_enum_dense", "C04_rho_probs_enum", "C04_rho_probs_enum_dense",
                      "C04_dense_unitary", "C04_psi_probs_sum", "C04_rho_probs_nonneg", "C04_rho_probs_sum",
+                     "C04_create_dict_exact", "C04_create_dict_list_rounds", "C04_create_dict_refused",   # extension round 2
                      "C04_dZ", "C04_dX_unitary", "C04_dX_eigen", "C04_dY_unitary", "C04_dY_eigen"]
 
 
@@ -436,6 +438,8 @@ def _one_case(ctx, case):
         return vecstates_case(ctx, case)
     if case.get("kind") == "userdict":
         return userdict_case(ctx, case)
+    if case.get("kind") == "dictarg":
+        return dictarg_case(ctx, case)
     n, basis, exact, kind = case["n"], case["basis"], case["exact"], case["kind"]
     ctx.current_case = case
     rng_seed = case["seed"]
@@ -1153,6 +1157,217 @@ def gen_userdict_cases(rng, thorough):
             b[rng.randrange(n)] = rng.choice(DIAGONAL_LETTERS if rep % 2 == 0 else USER_LETTERS)
             yield {"kind": "userdict", "n": n, "basis": "".join(b), "state": state, "seed": rng.randrange(1 << 30)}
 
+
+# ------------------------------------------------------------------ extension round 2: `create_dict` keyword conversion inside the model
+# (QV.Model.ArgConv.createDictM2; C04_create_dict_exact / C04_create_dict_list_rounds / C04_create_dict_refused)
+DICTARG_FORMS = ("tensor:float64", "tensor:float32", "tensor:float16", "tensor:int64", "tensor:int32", "tensor:uint8", "tensor:bool",
+                 "ndarray:float64", "ndarray:float32", "ndarray:int64", "ndarray:bool",
+                 "list:int", "list:bool", "list:float", "list:float/lossy", "list:np.float64", "ragged", "other")
+_NP_DT = {"float64": np.float64, "float32": np.float32, "float16": np.float16, "int64": np.int64, "int32": np.int32, "uint8": np.uint8, "bool": np.bool_}
+
+
+def dictarg_object(form, rng):
+    """-> (object handed to create_dict, its content as a float64 array [2,2,2] (None: not array-like), model container form)"""
+    box, _, dt = form.partition(":")
+    if box == "ragged":
+        return [[[1.0, 0.0], [0.0]], [[0.0, 0.0], [0.0, 0.0]]], None, "ragged"
+    if box == "other":
+        return rng.choice([None, "H", {"a": 1}]), None, "other"
+    lossy = dt.endswith("/lossy")
+    dt = dt.split("/")[0]
+    if dt in ("bool",):
+        vals = np.array([rng.randrange(2) for _ in range(8)], dtype=np.float64)
+    elif dt in ("uint8",):
+        vals = np.array([rng.randrange(0, 4) for _ in range(8)], dtype=np.float64)
+    elif dt.startswith("int") or dt == "int":
+        vals = np.array([rng.randrange(-3, 4) for _ in range(8)], dtype=np.float64)
+    else:
+        vals = np.array([rng.gauss(0, 1) for _ in range(8)], dtype=np.float64)
+        if dt == "float16":
+            vals = vals.astype(np.float16).astype(np.float64)
+        elif dt == "float32" or (box == "list" and dt == "float" and not lossy):
+            vals = vals.astype(np.float32).astype(np.float64)     # float32-representable doubles
+    vals = vals.reshape(2, 2, 2)
+    if box == "tensor":
+        return torch.tensor(vals, dtype=getattr(torch, dt)), vals, form
+    if box == "ndarray":
+        return np.array(vals, dtype=_NP_DT[dt]), vals, form
+    if dt == "int":
+        return [[[int(x) for x in r] for r in m] for m in vals], vals, "list:int"
+    if dt == "bool":
+        return [[[bool(x) for x in r] for r in m] for m in vals], vals, "list:bool"
+    if dt == "np.float64":
+        return [[[np.float64(x) for x in r] for r in m] for m in vals], vals, "list:np.float64"
+    return [[[float(x) for x in r] for r in m] for m in vals], vals, "list:float"
+
+
+def dictarg_overwrite(obj, rng):
+    """the CALLER writes other numbers into its own object in place; -> the new content (float64 [2,2,2]) or None when the object is immutable"""
+    if isinstance(obj, torch.Tensor):
+        new = np.array([rng.randrange(0, 2) for _ in range(8)], dtype=np.float64).reshape(2, 2, 2)
+        new = 1.0 - new if np.array_equal(new, obj.to(torch.double).numpy()) else new
+        obj.copy_(torch.tensor(new).to(obj.dtype))
+        return new
+    if isinstance(obj, np.ndarray):
+        new = np.array([rng.randrange(0, 2) for _ in range(8)], dtype=np.float64).reshape(2, 2, 2)
+        new = 1.0 - new if np.array_equal(new, obj.astype(np.float64)) else new
+        obj[...] = new.astype(obj.dtype)
+        return new
+    if isinstance(obj, list):
+        if np.shape(np.array(obj, dtype=object)) != (2, 2, 2):
+            return None
+        new = np.array([rng.randrange(0, 2) for _ in range(8)], dtype=np.float64).reshape(2, 2, 2)
+        if np.array_equal(new, np.array(obj, dtype=np.float64)):
+            new = 1.0 - new
+        for a in range(2):
+            for b in range(2):
+                for c in range(2):
+                    obj[a][b][c] = type(obj[a][b][c])(new[a][b][c])
+        return new
+    return None
+
+
+def _shares(t, obj):
+    if isinstance(obj, torch.Tensor):
+        return t.untyped_storage().data_ptr() == obj.untyped_storage().data_ptr()
+    if isinstance(obj, np.ndarray):
+        return bool(np.shares_memory(t.numpy(), obj))
+    return False
+
+
+def dictarg_case(ctx, case):
+    ctx.current_case = case
+    rng = _import_random().Random(case["seed"])
+    forms = case["forms"]          # {letter: form}, insertion order = keyword order
+    n, basis = case["n"], case["basis"]
+    ctx.case({k: case[k] for k in ("n", "basis", "forms", "seed")}, nontrivial=True, sample={"kind": "dictarg", "forms": forms, "basis": basis})
+    ctx.count("kind=dictarg")
+    objs, vals, boxes = {}, {}, {}
+    for L, form in forms.items():
+        objs[L], vals[L], boxes[L] = dictarg_object(form, rng)
+        ctx.count(f"dictarg: keyword given as {form}")
+    default_double = torch.get_default_dtype() == torch.double
+    ctx.count(f"dictarg: torch default dtype double={default_double}")
+    lossy = {L for L, f in forms.items() if f == "list:float/lossy" and not default_double}
+    snap = {L: (o.clone() if isinstance(o, torch.Tensor) else copy.deepcopy(o)) for L, o in objs.items()}
+    try:
+        td, err = unitaries.create_dict(**objs), None
+    except Exception as e:  # noqa: BLE001
+        td, err = None, type(e).__name__
+    expect_refused = any(v is None for v in vals.values())
+    r2 = 1.0 / np.sqrt(2.0)
+    dflt = {"X": np.array([[[1, 1], [1, -1]], [[0, 0], [0, 0]]], dtype=np.float64) * r2,
+            "Y": np.array([[[1, 0], [1, 0]], [[0, -1], [0, 1]]], dtype=np.float64) * r2,
+            "Z": np.array([[[1, 0], [0, 1]], [[0, 0], [0, 0]]], dtype=np.float64)}
+    m = None
+    if ctx.driver is not None:
+        letters = list(forms)
+        heap = [bits(np.zeros(8) if vals[L] is None else vals[L].ravel()) for L in letters] + [bits(np.arange(8.0))]
+        kw = [{"key": L, "box": boxes[L], "sid": i} for i, L in enumerate(letters)]
+        # the caller's later in-place writes are generated below from the same stream; the model is told the same new contents
+        wr_rng = _import_random().Random(case["seed"] ^ 0x77)
+        probe = {L: dictarg_overwrite(copy.deepcopy(o) if not isinstance(o, torch.Tensor) else o.clone(), wr_rng) for L, o in objs.items()}
+        writes = [{"sid": i, "vals": bits(probe[L].ravel())} for i, L in enumerate(letters) if probe[L] is not None and vals[L] is not None]
+        m = ctx.driver.call("c04.create_dict_arg", default_double=default_double, heap=heap, kw=kw, writes=writes)
+        ctx.point("create_dict(**kwargs) accepts the keyword objects (refused or not; which exception is not compared)", "aux",
+                  err is None, "error" not in m, case, exact=True, sig="dictarg/refused", theorem="C04_create_dict_refused, C04_create_dict_exact")
+    ctx.oracle("create_dict accepts every array-like unitary (tensor / numpy array / rectangular nested list of numbers)", expect_refused or err is None, case,
+               detail={"raised": err, "forms": forms}, sig="dictarg/accepted", theorem="C04_create_dict_exact")
+    if td is None:
+        ctx.count("dictarg: refused" + (" (as expected: ragged / not array-like)" if expect_refused else ""))
+        return
+    # ---- at return: keys, element type, entries = what the objects denote, caller's objects untouched
+    want = {**dflt, **{L: v for L, v in vals.items()}}
+    exactL = [L for L in forms if L not in lossy]
+    ok_keys = set(td.keys()) == set(want)
+    ok_dtype = all(isinstance(t, torch.Tensor) and t.dtype == torch.double for t in td.values())
+    ok_vals = ok_keys and ok_dtype and all(tuple(td[L].shape) == (2, 2, 2) and np.array_equal(td[L].numpy(), want[L]) for L in want if L not in lossy)
+    ctx.oracle("create_dict: keys X, Y, Z + keywords, every entry a double tensor holding EXACTLY the entries of the object it was given "
+               "(defaults unless overridden)", bool(ok_vals), case,
+               detail={"keys": sorted(td.keys()), "dtypes": [str(getattr(t, "dtype", None)) for t in td.values()], "forms": forms},
+               sig="dictarg/entries", theorem="C04_create_dict_exact, C04_create_dict")
+    ctx.oracle("create_dict leaves the objects it was given unchanged",
+               all((torch.equal(objs[L], snap[L]) if isinstance(objs[L], torch.Tensor) else
+                    (np.array_equal(objs[L], snap[L]) if isinstance(objs[L], np.ndarray) else objs[L] == snap[L])) for L in objs), case,
+               sig="dictarg/args-mutated", theorem="C04_create_dict_exact")
+    for L in lossy:   # candidate finding F_C04_create_dict_list_precision: no verdict either way (a repaired create_dict stores the doubles)
+        got = td[L].numpy()
+        ctx.count("dictarg: list of Python floats that are not float32-representable is stored " +
+                  ("ROUNDED to float32 (as modelled: C04_create_dict_list_rounds)" if np.array_equal(got, vals[L].astype(np.float32).astype(np.float64))
+                   else ("exactly" if np.array_equal(got, vals[L]) else "as something else")))
+    shares = {L: _shares(td[L], objs[L]) for L in forms}
+    if m is not None and "error" not in m and ok_keys:
+        ment = {}
+        for key, sid, dt, v0, v1 in m["entries"]:
+            ment.setdefault(key, (sid, dt, unbits(v0), unbits(v1)))       # first entry of a key wins
+        ctx.point("create_dict: stored entries (bit patterns) of every keyword and default", "property",
+                  {L: bits(td[L].numpy().ravel()) for L in sorted(want) if L not in lossy},
+                  {L: bits(ment[L][2]) for L in sorted(want) if L not in lossy and L in ment}, case, exact=True,
+                  sig="dictarg/entries-model", theorem="C04_create_dict_exact")
+        ctx.point("create_dict: an entry shares memory with the object it was made from", "aux", {L: shares[L] for L in forms},
+                  {L: ment[L][0] < m["before"] for L in forms if L in ment}, case, exact=True, sig="dictarg/alias-model", theorem="C04_create_dict_exact")
+    # ---- the caller re-uses its objects: in-place overwrite, then rotate with the dictionary made BEFORE
+    wr_rng = _import_random().Random(case["seed"] ^ 0x77)
+    written = {L: dictarg_overwrite(o, wr_rng) for L, o in objs.items()}
+    ctx.count(f"dictarg: caller overwrote {sum(v is not None for v in written.values())} of {len(objs)} keyword objects in place")
+    still = all(np.array_equal(td[L].numpy(), want[L]) for L in exactL) and all(np.array_equal(td[L].numpy(), dflt[L]) for L in dflt if L not in forms)
+    ctx.oracle("after the caller overwrites its own objects in place the dictionary still holds the matrices it was given", bool(still), case,
+               detail={"forms": forms, "aliased": [L for L in forms if shares[L]]}, sig="dictarg/live-alias", theorem="C04_create_dict_exact")
+    if any(b in lossy for b in basis) or not ok_vals:
+        return
+    cm = {L: want[L][0] + 1j * want[L][1] for L in want}
+    K = dense_K([cm[b] for b in basis])
+    N = 2 ** n
+    st = FakeState(n, unitaries.create_dict())
+    space_t = torch.tensor(qc.all_states(n), dtype=torch.double)
+    psi = np.array([complex(rng.gauss(0, 1), rng.gauss(0, 1)) for _ in range(N)])
+    a = np.array([[complex(rng.gauss(0, 1), rng.gauss(0, 1)) for _ in range(N)] for _ in range(N)])
+    rho = a @ a.conj().T
+    wpsi, wrho = K @ psi, K @ rho @ K.conj().T
+    sc = float(np.max(np.abs(wpsi))) + float(np.max(np.abs(psi))) + 1e-300
+    scr = float(np.max(np.abs(wrho))) + float(np.max(np.abs(rho))) + 1e-300
+    ipsi = from_pair_tensor(unitaries.rotate_psi(st, basis, space_t, unitaries=td, psi=to_pair_tensor(psi)))
+    irho = from_pair_tensor(unitaries.rotate_rho(st, basis, space_t, unitaries=td, rho=to_pair_tensor(rho)))
+    ctx.oracle("rotate_psi with a dictionary whose source objects were overwritten afterwards == kron(U) psi of the matrices GIVEN to create_dict",
+               bool(ipsi.shape == wpsi.shape and np.allclose(ipsi, wpsi, rtol=1e-9, atol=1e-9 * sc)), case,
+               detail={"impl": str(ipsi[:4]), "dense": str(wpsi[:4]), "forms": forms}, sig="dictarg/rotate_psi-after-overwrite",
+               theorem="C04_create_dict_exact, " + TH["rotate_psi"])
+    ctx.oracle("rotate_rho with a dictionary whose source objects were overwritten afterwards == U rho U^dag of the matrices GIVEN to create_dict",
+               bool(irho.shape == wrho.shape and np.allclose(irho, wrho, rtol=1e-9, atol=1e-8 * scr)), case,
+               detail={"impl": str(irho[0, :4]), "dense": str(wrho[0, :4]), "forms": forms}, sig="dictarg/rotate_rho-after-overwrite",
+               theorem="C04_create_dict_exact, " + TH["rotate_rho"])
+    if m is not None and "error" not in m and all(b in ment for b in basis):
+        def m2_of(v):   # flat [re/im][r][c] -> [[c00, c01], [c10, c11]]
+            return [[cenc(complex(v[2 * r + c], v[4 + 2 * r + c]), False) for c in range(2)] for r in range(2)]
+        us_enc = [m2_of(ment[b][3]) for b in basis]       # the model's dictionary AFTER the caller's writes
+        mv = np.array([cdec(p_, False) for p_ in ctx.driver.call("c04.rotate_psi", n=n, us=us_enc, psi=[cenc(z, False) for z in psi])])
+        if ipsi.shape == mv.shape:
+            ctx.point("rotate_psi after the caller overwrote the objects the dictionary was made from", "property", np.r_[ipsi.real, ipsi.imag],
+                      np.r_[mv.real, mv.imag], case, scale=sc, theorem="C04_create_dict_exact, " + TH["rotate_psi"], sig="dictarg/rotate_psi-model")
+        mr = ctx.driver.call("c04.rotate_rho", n=n, us=us_enc, rho=[[cenc(z, False) for z in row] for row in rho])
+        mv = np.array([[cdec(p_, False) for p_ in row] for row in mr])
+        if irho.shape == mv.shape:
+            ctx.point("rotate_rho after the caller overwrote the objects the dictionary was made from", "property", np.r_[irho.real.ravel(), irho.imag.ravel()],
+                      np.r_[mv.real.ravel(), mv.imag.ravel()], case, scale=scr, theorem="C04_create_dict_exact, " + TH["rotate_rho"], sig="dictarg/rotate_rho-model")
+
+
+def gen_dictarg_cases(rng, thorough):
+    # every container / element-type form once on its own (letter A, or overriding X / Y), then random keyword sets
+    for i, form in enumerate(DICTARG_FORMS):
+        L = ("A", "X", "Y", "B")[i % 4]
+        n = 1 + i % 2
+        basis = L if n == 1 else (L + rng.choice("XYZ") if i % 4 < 2 else rng.choice("XYZ") + L)
+        yield {"kind": "dictarg", "n": n, "basis": basis, "forms": {L: form}, "seed": rng.randrange(1 << 30)}
+    ok_forms = [f for f in DICTARG_FORMS if f not in ("ragged", "other")]
+    for rep in range(24 if thorough else 8):
+        letters = rng.sample(["A", "B", "C", "X", "Y"], rng.randrange(2, 4))
+        forms = {L: rng.choice(ok_forms) for L in letters}
+        if rep % 8 == 7:
+            forms[letters[-1]] = rng.choice(["ragged", "other"])     # one bad keyword after good ones: the whole call is refused
+        n = rng.randrange(1, 4)
+        basis = "".join(rng.choice(letters + ["X", "Y", "Z"]) for _ in range(n - 1)) + letters[0]
+        yield {"kind": "dictarg", "n": n, "basis": basis, "forms": forms, "seed": rng.randrange(1 << 30)}
+
 # ------------------------------------------------------------------ audit round: `states` given as ONE 1-D vector (outside the quantifier)
 def vecstates_case(ctx, case):
     ctx.current_case = case
@@ -1225,6 +1440,8 @@ def gen_audit_cases(ctx, thorough):
             yield {"kind": "zoverride", "n": n, "basis": "".join(b), "exact": exact, "state": state, "seed": rng.randrange(1 << 30)}
     # (2b) final pass: user-added gates of special structure in every object form
     yield from gen_userdict_cases(rng, thorough)
+    # (2c) extension round 2: the keyword conversion of create_dict inside the model (every container / element-type form, aliasing, later overwrite)
+    yield from gen_dictarg_cases(rng, thorough)
     # (3) one 1-D state instead of a batch: outcome classes
     for probs in (False, True):
         for explicit in (False, True):
@@ -1316,7 +1533,7 @@ def env_run(ctx, env_name):
         for c in aud:
             by_kind.setdefault(c["kind"], []).append(c)
         for k, lst in by_kind.items():
-            cases += lst[: (12 if k == "userdict" else 4)]
+            cases += lst[: (12 if k in ("userdict", "dictarg") else 4)]
         for case in _with_forms(ctx, cases):
             one_case(ctx, case)
             ctx.count(f"env:{env_name}:cases")
